@@ -384,8 +384,8 @@ impl St {
         let bytes: Vec<u8> = self.tr.pending.iter().copied().collect();
         let (envs, _, _) = crate::wire::split_envelopes(&bytes);
         let mut off = 0usize;
-        for e in envs.iter().take(3) {
-            for d in [1usize, 3, 7] {
+        for e in envs.iter().take(4) {
+            for d in [1usize, 3, 5, 7] {
                 cuts.insert(off + d);
             }
             off += e.wire_len();
